@@ -206,6 +206,48 @@ def text_cases(wd, tier, base_replay, out=None):
     return replay
 
 
+# every way of being ill-formed that the statement of C02 lists must really have been exercised
+C02_LABELS = ["ETagMismatch", "Unclosed", "DupAttr", "BadChar", "BadName", "BadCharRef", "LtInAttr", "BareAmp",
+              "LtInText", "DashDashInComment", "CDEndInText", "UndeclaredEntity", "NoRoot", "SecondRoot",
+              "TextAtTopLevel", "LateXmlDecl", "ReservedPITarget", "UnparsedEntityRef", "EntityCycleOrUndeclared"]
+C01_KINDS = ["xmldecl", "comment", "pi", "ws", "doctype", "entity", "uentity", "notation", "attlist", "elemdecl",
+             "dtdend", "stag", "etag", "text", "cdata"]
+
+
+def _vacuity_guard(out, prop, events, rel):
+    """A run that did not exercise what the property names is a tool error, not a pass."""
+    import collections
+    labels = collections.Counter()
+    kinds = collections.Counter()
+    styles = collections.Counter()
+    for e in rel:
+        for v in e["viol"]:
+            labels[v] += 1
+        if e["wf"] and "src" not in e:
+            for t in e["toks"]:
+                kinds[t["k"]] += 1
+            st = e["style"]
+            for k in ("quote", "tagws", "eqws", "empty", "order", "declws"):
+                styles["%s=%s" % (k, st[k])] += 1
+            for m in st["chars"]:
+                styles["chars=%s" % m] += 1
+    if prop == "C02":
+        out.extra["violated_constraints_exercised"] = dict(sorted(labels.items()))
+        missing = [x for x in C02_LABELS if labels[x] == 0]
+        if missing:
+            raise C.ToolError("vacuity guard: no ill-formed input of kind %s was generated" % missing)
+    else:
+        out.extra["token_kinds_in_well_formed_inputs"] = dict(sorted(kinds.items()))
+        out.extra["style_choices_exercised"] = dict(sorted(styles.items()))
+        missing = [x for x in C01_KINDS if kinds[x] == 0]
+        want = ["quote=dq", "quote=sq", "quote=mixed", "tagws=0", "tagws=1", "tagws=2", "eqws=True", "eqws=False",
+                "empty=tag", "empty=pair", "order=fwd", "order=rev", "declws=0", "declws=1",
+                "chars=lit", "chars=dec", "chars=hex", "chars=ent", "chars=cdata"]
+        missing += [x for x in want if styles[x] == 0]
+        if missing:
+            raise C.ToolError("vacuity guard: never exercised: %s" % missing)
+
+
 def _relevant(prop, e):
     if prop == "C01":
         return bool(e["wf"])
@@ -269,6 +311,7 @@ def run(prop, tier):
         for e in rel[:3] + rel[-2:]:
             out.sample({"text": _text(e), "wf": e["wf"], "viol": e["viol"], "raw": e["raw"]["parse"],
                         "rest": e["raw"]["rest"], "fast": e["fast"]})
+        _vacuity_guard(out, prop, events, rel)
         out.extra["documents_replayed"] = len(events)
         out.extra["relevant_for_property"] = len(rel)
         out.extra["judged_by_tlc"] = len(judged)
